@@ -66,7 +66,7 @@ def plan(tier, rnd):
                 items.append(dict(tid=tid, bl=bl, n=2500 if not heavy else 1200, exhaustive=True))
             for bl in ([4, 5, 6] if heavy else [4, 5, 6, 7]):
                 items.append(dict(tid=tid, bl=bl, n=150 if not heavy else {4: 60, 5: 20, 6: 4}[bl], exhaustive=False))
-    for kind in ("array_read", "array_write", "array_2d", "compose", "select_lazy", "reuse_after_guard", "under_true_guard", "three_level", "ignore_mode"):
+    for kind in ("array_read", "array_write", "array_2d", "compose", "select_lazy", "reuse_after_guard", "under_true_guard", "three_level", "ignore_mode", "bool_typed_fresh"):
         for bl in (2, 3, 4):
             items.append(dict(tid=kind, bl=bl, n=(25 if tier == "quick" else 500), exhaustive=False))
     rnd.shuffle(items)
@@ -169,6 +169,24 @@ def special_case(kind, bl, rnd):
                          "LinComb.from_bits(x0.to_bits())", "(x0 == x1) + 0", "x0.check_positive() + 0"])
         c.op_src = "@guarded(c0)\ndef _b():\n    return %s\n_b()\nr = %s" % (op, op)
         c.expr = c.op_src
+        return c
+    if kind == "bool_typed_fresh":
+        # a boolean-typed result built from a witness the prover chooses freely (allocated inside the operation): whatever the
+        # prover picks, the typed result must be 0 or 1 - also when the same object was converted before, inside a region that was
+        # not taken or with checks switched off (anything remembered from that first conversion must not replace the constraint)
+        c = Case(kind, "", bl, 0, [], [], "b")
+        g, tv = rnd.choice([0, 0, 1]), rnd.randint(0, 1)
+        c.inputs = [g, tv]
+        c.pre_src = "c0 = PrivValBool(I[0])\n"
+        op = rnd.choice(["LinCombBool(t)", "c0 & t", "c0 | t", "LinCombBool(t) & LinCombBool(t)", "~LinCombBool(t)", "LinCombBool(t) ^ c0"])
+        first = rnd.choice(["none", "guarded", "lazy", "ignore"])
+        pre = {"none": "", "guarded": "@guarded(c0)\ndef _b():\n    return %s\n_b()\n" % op,
+               "lazy": "if_then_else(c0, lambda: (%s) + 0, 3)\n" % op,
+               "ignore": "import pysnark.runtime as _rt\n_rt.ignore_errors(True)\ntry:\n    _u = %s\nfinally:\n    _rt.ignore_errors(False)\n" % op}[first]
+        c.op_src = "t = PrivVal(I[1])\n" + pre + "r = " + op
+        c.expr = c.op_src
+        c.bool_only = True
+        c.tid = "bool_typed_fresh:" + first
         return c
     if kind == "under_true_guard":
         # the guarded form of every constraint (v*w = y + dummy, guard*dummy = 0) must pin the result just as well
@@ -309,6 +327,20 @@ def judge(R, c, p, N, capture, solve, maxleaves=60000):
         R.case(nontrivial=False)
         return None
     res = solve.solve(cap.cons, cap.fixed, p, cap.result_lcs, maxleaves=maxleaves)
+    if getattr(c, "bool_only", False):
+        # the witness is the prover's choice, so several results are fine - but each of them must be a bit
+        R.count("boolean_typed_fresh_witness_cases")
+        if res.budget_exceeded or (res.inconclusive and not res.values and not res.free):
+            R.count("solver_inconclusive")
+            R.case(nontrivial=False)
+            return "inconclusive"
+        R.count("conclusive")
+        R.case(cell="%s|bl%d" % (c.tid, c.bl), key=c.key() + (p,))
+        bad = sorted(v[0] for v in res.values if v[0] not in (0, 1))
+        if res.free or bad:
+            R.violation("boolean-typed-result-admits-non-boolean", "%s: the typed result can be %s" % (
+                c.expr.replace("\n", "; "), "anything" if res.free else bad[:3]), case=c.describe(), pre_src=c.pre_src, op_src=c.op_src, p=p)
+        return "bool-ok"
     v = res.verdict(cap.honest)
     R.count("solver_leaves", res.leaves)
     R.count("solver_dead_branches", res.dead)
